@@ -111,6 +111,16 @@ def task(args):
                     res.count("values-read-ok", len(names))
             # (2) unset name: strict fails naming it, without disclosing other values; --no-strict gives NULL
             missing = r.choice(["NOPE", "UNSET_VAR", "nope_lower", "X9", "Missing", "_UNDER"])
+            if r.random() < 0.6:
+                # a near miss of a variable that is set (most of the time one that carries a secret): other case,
+                # one character less or more, one character different -- what a typo looks like
+                base = r.choice(sorted(secrets) if r.random() < 0.75 or not names else names)
+                if base.isidentifier():
+                    missing = r.choice([base.lower(), base.upper(), base.swapcase(), base.capitalize(), base.title(), base[:-1] or "Q", base[1:] or "Q",
+                                        base + "_", base + "S", base[:1] + "x" + base[2:], base[:len(base) // 2].lower() + base[len(base) // 2:]])
+                    if not (missing[:1].isalpha() and missing.isidentifier() and missing.isascii()):
+                        missing = "Q" + base.lower()
+                    res.count("unset-name-is-a-near-miss-of-a-set-one")
             while missing in env:
                 missing += "Z"
             text2 = "let v = %s;\nout json {v = v};\n" % sel(missing)
